@@ -35,7 +35,7 @@ pub fn knobs_for(prop: &str) -> Knobs {
         "C02" => { k.cup = Some(true); k.forged_pct = 45; k.retry_after_pct = 40; }
         "C06" => { k.retry_after_pct = 25; k.update_pct = 10; k.max_checks = 6; }
         "C07" => { k.retry_after_pct = 80; k.update_pct = 20; }
-        "C08" => { k.faults_pct = 0; k.weird_storage_pct = 0; }
+        "C08" => { k.faults_pct = 0; k.weird_storage_pct = 0; k.reboot_scn_pct = 15; }
         "C09" => { k.update_pct = 20; k.faults_pct = 0; }
         "C04" | "C10" => { k.update_pct = 85; }
         "C18" => { k.update_pct = 90; k.reboot_pct = 70; k.reboot_scn_pct = 20; }
@@ -143,7 +143,11 @@ pub fn gen_sm(rng: &mut Rng, k: &Knobs) -> Value {
         apps.push(a);
         app_ids.push(id);
     }
-    if rng.chance(1, 40) { apps[0]["ver"] = json!([0, 0, 0, 0]); }          // invalid app set
+    if rng.chance(1, 20) {
+        // invalid app set: one app, anywhere in the set, has version 0 or (not the first, whose id is a header value) an empty id
+        let i = rng.below(napps as u64) as usize;
+        if i > 0 && rng.chance(1, 2) { apps[i]["id"] = json!(""); app_ids[i] = String::new(); } else { apps[i]["ver"] = json!([0, 0, 0, 0]); }
+    }
     let url = if rng.below(100) < k.bad_url_pct { *rng.pick(&BAD_URLS) } else { *rng.pick(&GOOD_URLS) };
     let os_version = format!("{}.{}.0.0", 1 + rng.below(3), rng.below(3));
     let config = json!({"name": hx(&rand_ident(rng)), "uver": rand_version(rng),
@@ -230,7 +234,14 @@ pub fn gen_sm(rng: &mut Rng, k: &Knobs) -> Value {
             json!({"status": 200, "retry_after": [], "auth": "genuine", "body": {"doc": {"daystart": {"days": rng.below(10000)}, "apps": apps}}})
         };
         let mut h = vec![ok_doc(rng)];
-        for _ in 0..(3 + rng.below(8)) { h.push(if rng.chance(1, 5) { rand_http(rng, &app_ids, k, cup_on) } else { ok_doc(rng) }); }
+        for _ in 0..(3 + rng.below(8)) {
+            h.push(match rng.below(8) {
+                0 => rand_http(rng, &app_ids, k, cup_on),
+                // a ping (or report) answered 2xx by something that is not Omaha: a failed exchange that reached no server
+                1 => json!({"status": *rng.pick(&[200u64, 204, 299]), "retry_after": [], "auth": "genuine",
+                            "body": {"bad": hex::encode(*rng.pick(&[&b"<html>captive portal</html>"[..], b"", b"{}", b")]}'\n"]))}}),
+                _ => ok_doc(rng) });
+        }
         http = h;
         plan = vec![json!(hex::encode("plan-a"))];
         can_start = vec![json!("ok")];
